@@ -45,12 +45,15 @@ func parseColorLine(components []string) (color.Color, error) {
 	if len(components) < 4 {
 		return nil, fmt.Errorf("%s statement needs one or three values, got %d", components[0], len(components)-1)
 	}
-	r, err := strconv.ParseFloat(strings.TrimSpace(components[1]), 32)
-	g, err := strconv.ParseFloat(strings.TrimSpace(components[2]), 32)
-	b, err := strconv.ParseFloat(strings.TrimSpace(components[3]), 32)
-	if err != nil {
-		return nil, fmt.Errorf("unable to parse component %q: %w", components[0], err)
+	var rgb [3]float64
+	for i := range rgb {
+		v, err := strconv.ParseFloat(strings.TrimSpace(components[i+1]), 32)
+		if err != nil {
+			return nil, fmt.Errorf("unable to parse component[%d] %q of %s: %w", i, components[i+1], components[0], err)
+		}
+		rgb[i] = v
 	}
+	r, g, b := rgb[0], rgb[1], rgb[2]
 	return color.RGBA{colorChannel(r), colorChannel(g), colorChannel(b), 255}, nil
 }
 
